@@ -12,6 +12,47 @@ def ofOpt {α : Type} : Option α → Except Err α
   | none => .error .index
   | some a => .ok a
 
+/-- continue with the value of a model `Option`, IndexError on `none` -/
+def obind {α β : Type} (o : Option α) (K : α → Except Err β) : Except Err β :=
+  match o with
+  | none => .error .index
+  | some a => K a
+
+@[simp] theorem obind_none {α β : Type} (K : α → Except Err β) : obind none K = .error .index := rfl
+@[simp] theorem obind_some {α β : Type} (a : α) (K : α → Except Err β) : obind (some a) K = K a := rfl
+
+theorem ofOpt_bind {α β : Type} (o : Option α) (f : α → Option β) : ofOpt (o.bind f) = obind o (fun a => ofOpt (f a)) := by
+  cases o <;> rfl
+
+theorem map_obind {α β γ : Type} (g : β → γ) (o : Option α) (K : α → Except Err β) :
+    Except.map g (obind o K) = obind o (fun a => Except.map g (K a)) := by
+  cases o <;> rfl
+
+theorem obind_map {α β γ : Type} (g : α → β) (o : Option α) (K : β → Except Err γ) :
+    obind (o.map g) K = obind o (fun a => K (g a)) := by
+  cases o <;> rfl
+
+theorem obind_congr {α β : Type} (o : Option α) (K K' : α → Except Err β) (h : ∀ a, K a = K' a) : obind o K = obind o K' := by
+  cases o with
+  | none => rfl
+  | some a => exact h a
+
+theorem tryE_obind {α β γ : Type} (o : Option α) (K' : α → Except Err β) (K : β → Except Err γ) :
+    tryE (obind o K') (fun e => .error e) K = obind o (fun a => tryE (K' a) (fun e => .error e) K) := by
+  cases o <;> rfl
+
+theorem exc_map_map {α β γ : Type} (x : Except Err α) (f : α → β) (g : β → γ) :
+    (x.map f).map g = x.map (fun a => g (f a)) := by
+  cases x <;> rfl
+
+/-- `==` on byte strings as the translation (`decide (a = b)`) and the models (`a == b`) spell it -/
+theorem decide_eq_beq (a b : Bytes) : decide (a = b) = (a == b) := by
+  rw [Bool.eq_iff_iff]; simp
+
+theorem tryE_ofOpt {α β : Type} (o : Option α) (K : α → Except Err β) :
+    tryE (ofOpt o) (fun e => .error e) K = obind o K := by
+  cases o <;> rfl
+
 /-- functions of `datagram_data[0]`: IndexError on `b""`, else the model's function of the first byte -/
 def onFirst {α : Type} (d : Bytes) (f : UInt8 → α) : Except Err α :=
   match d with
